@@ -213,7 +213,7 @@ def one_run(b: dict[str, Any], fault: str | None, wd: Path, sub: bool):
         # that the restart time (the file's last record, step ns - 1) has already passed
         sg_ = -1 if b["reversed"] else 1
         conf["warm_start"] = dict(filename=str(wd / "warm_from.nc"), variables=[])
-        conf["time"]["stop"] = str(tadd(run["start"], sg_ * 2 * b["dt"]))
+        conf["time"]["stop"] = str(tadd(run["start"], sg_ * max(0, min(2, b["ns"] - 3)) * b["dt"]))  # strictly before the restart time (step ns - 1)
         conf["output"]["filename"] = str(wd / "out_restart.nc")
     if fault and fault.startswith("v1_"):
         # the same set-up in the legacy (version 1) vocabulary
